@@ -17,14 +17,23 @@ class Disk:
         self.now = 0.0  # virtual seconds carried from one Sim to the next
         self.frozen = False
         self.writes = 0
+        self.tickv = 1.0  # smallest distance between two modified times (a per-history parameter: 20 us ... 1 s)
 
     def put(self, name, value, t):
         if self.frozen:
             return
-        t = max(t, self.last + 1.0)
+        t = max(t, self.last + self.tickv)
         self.last = t
         self.data[name] = (value, t)
         self.writes += 1
+        return t
+
+    def put_same_instant(self, name, value, t):
+        """A second view of a store that was just written at instant t (the `registry.source(plan, registry[x])`
+        idiom: one store, two registry entries, hence one modified time)."""
+        if self.frozen:
+            return
+        self.data[name] = (value, t)
         return t
 
     def delete(self, name):
@@ -114,7 +123,7 @@ class FileDisk(Disk):
         return os.path.join(self.scratch, name + ".pkl")
 
     def tick(self, t):
-        t = max(t, self.last + 1.0)
+        t = max(t, self.last + self.tickv)
         self.last = t
         return t
 
